@@ -126,6 +126,25 @@ func runC09(c *runCfg) error {
 			run("lengths", cols, rows, [][]int{nil, {1}, {0, 1, 0}})
 		}
 	}
+	// a portal keeps the statement it was bound to: the statement name is prepared again with another query
+	// (other columns, other rows) between Bind/Describe and Execute — the rows that arrive are the rows of the
+	// statement the portal was described with, NULLs included
+	{
+		cols := []colT{{name: []byte("n"), oid: 23}, {name: []byte("t"), oid: 25}}
+		st := stmtT{id: 1, cols: cols, ret: "nil", prog: []opT{{kind: "row", vals: []valT{{kind: "int4", n: 1}, tv("one")}}, {kind: "row", vals: []valT{{kind: "nil"}, {kind: "nilptr"}}},
+			{kind: "row", vals: []valT{{kind: "int4", n: -3}, tv("")}}, {kind: "complete", tag: []byte("SELECT 3")}}}
+		other := stmtT{id: 2, cols: []colT{{name: []byte("a"), oid: 25}, {name: []byte("b"), oid: 25}, {name: []byte("c"), oid: 16}}, ret: "nil",
+			prog: []opT{{kind: "row", vals: []valT{tv("x"), tv("y"), {kind: "bool", n: 1}}}, {kind: "complete", tag: []byte("SELECT 1")}}}
+		cfg := cfgT{limit: 4096, auth: "none", term: "none", parse: []parseEntry{{query: []byte("q"), stmts: []stmtT{st}}, {query: []byte("q2"), stmts: []stmtT{other}}}}
+		for _, sn := range [][]byte{nil, []byte("s")} {
+			for _, rf := range [][]int{nil, {1}, {1, 0}} {
+				pn := []byte("p")
+				emitSession(c, lockCase(id, "reprepare", cfg, stdStartup, [][]byte{mParse(sn, []byte("q"), 0), mBind(pn, sn, nil, nil, rf), mDescribe('P', pn),
+					mParse(sn, []byte("q2"), 0), mExecute(pn, 0), mSync(), mParse(sn, []byte("q"), 0), mBind(nil, sn, nil, nil, rf), mDescribe('P', nil), mClose('S', sn), mParse(sn, []byte("q2"), 0), mExecute(nil, 0), mSync()}))
+				id++
+			}
+		}
+	}
 	// every placement of the three NULL kinds in rows of width <= W
 	W := 3
 	if c.tier == "thorough" {
